@@ -52,6 +52,19 @@ type FaultPlan struct {
 
 var ErrInjected = errors.New("verif: injected I/O error")
 
+func (p *FaultPlan) firedTotal() int {
+	if p == nil {
+		return 0
+	}
+	p.mu.Lock()
+	defer p.mu.Unlock()
+	n := 0
+	for _, c := range p.Fired {
+		n += c
+	}
+	return n
+}
+
 type DirTrace struct {
 	sim     *Sim
 	mu      sync.Mutex
@@ -120,6 +133,11 @@ func (t *DirTrace) record(op *DirOp) {
 
 func (t *DirTrace) injectFor(opName, kind string) string {
 	if t.plan == nil {
+		return ""
+	}
+	if t.sim.ActorName() == "" {
+		// the harness's own probes (monitor, reopen after Close) are not part
+		// of the system under test: never faulted
 		return ""
 	}
 	t.plan.mu.Lock()
